@@ -54,12 +54,22 @@ Definition lookup_uinfo (sc : scn) (id : N) : uinfo :=
 Definition lookup_obase (sc : scn) (a x : N) : N :=
   match find (fun e => (fst (fst e) =? a) && (snd (fst e) =? x)) (sc_obase sc) with Some e => snd e | None => 0 end.
 
-Definition is_plutus (u : uinfo) : bool := (3 <=? u_kind u) && (u_kind u <=? 6).
-Definition by_reference (u : uinfo) : bool := (5 <=? u_kind u) && (u_kind u <=? 6).
+Definition is_plutus (u : uinfo) : bool := (3 <=? u_kind u) && (u_kind u <=? 8).
+(* kinds 5/6: Plutus script by reference; 9: native script by reference.  7/8: the script of the kind-5/6 UTxOs of the
+   same <refsize>, but inline in the witness set (no reference, no script bytes) *)
+Definition by_reference (u : uinfo) : bool := ((5 <=? u_kind u) && (u_kind u <=? 6)) || (u_kind u =? 9).
+Definition own_script (u : uinfo) : bool := u_kind u <=? 4.
 
-(* withdrawals: reward address ids 41..51 are Plutus-script reward addresses whose redeemer carries
-   ExUnits(id * 1000, id * 1000000) (a convention of the harness); 1..11 key, 21..31 native script *)
-Definition wd_is_plutus (a : N) : bool := (41 <=? a) && (a <=? 51).
+(* withdrawals: reward address ids 41..51 are Plutus-script reward addresses (script in the witness set), 61..71 Plutus
+   scripts BY REFERENCE (the kind-5 script of size wd_ref_size, named through the reference UTxO of variant 0); the
+   redeemer carries ExUnits(id * 1000, id * 1000000) (conventions of the harness); 1..11 key, 21..31 native script *)
+Definition wd_by_ref (a : N) : bool := (61 <=? a) && (a <=? 71).
+Definition wd_is_plutus (a : N) : bool := ((41 <=? a) && (a <=? 51)) || wd_by_ref a.
+Definition wd_ref_size (a : N) : N :=
+  nth (N.to_nat (a - 61)) [100; 2500; 14000; 25599; 25600; 25601; 51200; 60000; 200000; 3; 30] 0.
+(* a reference UTxO: class (0 Plutus, 1 native), size of the script it carries, variant (two UTxOs carry each script) *)
+Definition ref_key (class size variant : N) : N := size * 4 + class * 2 + variant.
+Definition ref_key_size (k : N) : N := k / 4.
 Definition plutus_withdrawals (s : state) : list N :=
   filter wd_is_plutus (map fst (opt_list (s_withdrawals s))).
 
@@ -88,13 +98,15 @@ Definition ref_fee (sc : scn) (rc : refs) (s : state) : result N :=
      its <refsize>, so equal sizes are one referenced script *)
   let ins := map (fun e => (fst e, lookup_uinfo sc (fst e))) (s_inputs s) in
   let own := flat_map (fun iu : N * uinfo =>
-                         if negb (by_reference (snd iu)) && (0 <? u_ref (snd iu)) && own_known sc (fst iu)
+                         if own_script (snd iu) && (0 <? u_ref (snd iu)) && own_known sc (fst iu)
                          then [(fst iu, u_ref (snd iu))] else []) ins in
   let xr := snd rc in
   let conflict := existsb (fun o : N * N => existsb (fun x : N * N => (fst x =? fst o) && negb (snd x =? snd o)) xr) own in
   let xr_extra := filter (fun x : N * N => negb (memN (fst x) (map fst own))) xr in
-  let refd := sumN (nodup N.eq_dec (filter (fun x => 0 <? x) (map (fun iu : N * uinfo => u_ref (snd iu))
-                                                              (filter (fun iu : N * uinfo => by_reference (snd iu)) ins)))) in
+  let keys := map (fun iu : N * uinfo => ref_key (if u_kind (snd iu) =? 9 then 1 else 0) (u_ref (snd iu)) (fst iu mod 2))
+                  (filter (fun iu : N * uinfo => by_reference (snd iu)) ins)
+              ++ map (fun a => ref_key 0 (wd_ref_size a) 0) (filter wd_by_ref (map fst (opt_list (s_withdrawals s)))) in
+  let refd := sumN (map ref_key_size (nodup N.eq_dec keys)) in
   let total := sumN (map snd own) + sumN (map snd xr_extra) + refd + fst rc in
   if conflict then Err else
   match sc_ref_price sc with
